@@ -122,8 +122,13 @@ Verdict judge(const Case& c) {
       RectD rd(c.D("l"), c.D("t"), c.D("r"), c.D("b"));
       if (rd.IsEmpty() || subj.empty()) { v.discard = true; return v; }
       Rect64 r64((int64_t)std::llround(rd.left * s10), (int64_t)std::llround(rd.top * s10), (int64_t)std::llround(rd.right * s10), (int64_t)std::llround(rd.bottom * s10));
-      PathsD got = op == D_RectClip ? RectClip(rd, subj, prec) : RectClipLines(rd, subj, prec);
-      Paths64 want = op == D_RectClip ? RectClip64(r64).Execute(scaleIn(subj, s10)) : RectClipLines64(r64).Execute(scaleIn(subj, s10));
+      // the PathsD overload, or (alt == 1) the single-PathD overload on the first path
+      bool single = c.I("alt", 0) == 1;
+      PathsD in = single ? PathsD{subj[0]} : subj;
+      PathsD got = single ? (op == D_RectClip ? RectClip(rd, subj[0], prec) : RectClipLines(rd, subj[0], prec))
+                          : (op == D_RectClip ? RectClip(rd, subj, prec) : RectClipLines(rd, subj, prec));
+      if (single) ST.count("rect_single_path_overload");
+      Paths64 want = op == D_RectClip ? RectClip64(r64).Execute(scaleIn(in, s10)) : RectClipLines64(r64).Execute(scaleIn(in, s10));
       if (r64.IsEmpty()) want.clear();
       if (!samePaths(got, want, s10, why)) { v.fail(why + cfg); return v; }
       outSize = got.size();
